@@ -23,6 +23,10 @@ def main():
         for l in r.stdout.split('\n'):
             if l.strip():
                 a, b = l.split(); anysubs.append((a, int(b)))
+    # C18/C10 histories are too slow under libFuzzer (slow-unit/timeout artifacts that do not
+    # reproduce made the campaign inconclusive): no coverage-guided part for them
+    if pid in ('C18', 'C10'):
+        anysubs = []
     if pid not in TARGETS and not anysubs:
         return 0
     # fixed work per job; server-world cases cost 5-45 ms each under ASan (13 sockets, settle loops),
